@@ -76,6 +76,7 @@ def check(chk):
                                                 "_remove_mode_switch_handlers", "_remove_mode_devices", "_add_mode_devices",
                                                 "_setup_device_control_events")}
     chk.analysed(*m.values())
+    _handler_keys(chk, repo)
 
     # ------------------------------------------------------------ TRACE-2
     CHAIN = [
@@ -601,6 +602,54 @@ def _result_container(fn, call):
     return None
 
 
+def _handler_keys(chk, repo):
+    """KEY-7: the key add_handler hands back finds the registration again.  The handler is filed under the *parsed* event name (the
+    `{condition}` / `.priority` suffix stripped); the returned EventHandlerKey must carry that same name and the very key stored in the
+    registration, and remove_handler_by_key looks under key.event for key.key.  With the raw event string in the key, removal by key
+    silently finds nothing for every conditional / prioritised event: the mode's handlers survive the mode."""
+    EV = "mpf/core/events.py"
+    f = repo.func(EV, "EventManager.add_handler")
+    chk.analysed(f)
+    cfg = f.cfg()
+    parse = [n for n in cfg.nodes if n.kind == "stmt" and isinstance(n.ast, ast.Assign) and isinstance(n.ast.value, ast.Call) and
+             call_attr(n.ast.value) == "get_event_and_condition_from_string"]
+    chk.need(len(parse) == 1 and isinstance(parse[0].ast.targets[0], ast.Tuple), "KEY-7", "add_handler parses the event string", f)
+    ev = src(parse[0].ast.targets[0].elts[0])
+    app = [(n, c) for n, c in cfg.calls_named("append") if "registered_handlers" in src(c.func)]
+    chk.need(len(app) == 1, "KEY-7", "add_handler files the registration", f)
+    an, ac = app[0]
+    filed = src(ac.func.value.slice) if isinstance(ac.func.value, ast.Subscript) else None
+    rh = ac.args[0] if ac.args else None
+    k_stored = src(rh.args[3]) if isinstance(rh, ast.Call) and len(rh.args) > 3 else None
+    ok = filed == ev and cfg.dominates(parse[0].id, an.id)
+    chk.ob("KEY-7", "the handler is filed under the parsed event name", ok, f.where(ac), detail="filed under %s" % filed, construct=f.ident, text="filed under " + str(filed))
+    keys = [(n, c) for n in cfg.nodes if n.kind == "stmt" for c in n.calls() if isinstance(c.func, ast.Name) and c.func.id == "EventHandlerKey"]
+    rets = [n for n in cfg.nodes if n.kind == "stmt" and isinstance(n.ast, ast.Return) and n.ast.value is not None]
+    chk.need(len(keys) == 1 and rets, "KEY-7", "add_handler returns an EventHandlerKey", f)
+    kn, kc = keys[0]
+    k_ret = src(kc.args[0]) if kc.args else None
+    e_ret = src(kc.args[1]) if len(kc.args) > 1 else None
+    same_key = k_stored is not None and k_ret is not None and (k_stored == k_ret or k_stored == k_ret + ".key" or k_stored.split(".")[0] == k_ret.split(".")[0] and
+                                                               not isinstance(kc.args[0], ast.Call))
+    ok = e_ret == ev and cfg.dominates(parse[0].id, kn.id) and same_key
+    chk.ob("KEY-7", "the returned key carries the parsed event name (read after parsing) and the key stored in the registration", ok, f.where(kc),
+           detail="EventHandlerKey(%s, %s) built %s the event string is parsed; registration stores %s" % (
+               k_ret, e_ret, "after" if cfg.dominates(parse[0].id, kn.id) else "before", k_stored), construct=f.ident, text="returned handler key")
+    r = repo.func(EV, "EventManager.remove_handler_by_key")
+    chk.analysed(r)
+    rc = r.cfg()
+    lp = [h for h in rc.nodes if h.kind == "loop" and "registered_handlers[key.event]" in src(h.ast.iter).replace(" ", "")]
+    rm = [(n, c) for n, c in rc.calls_named("remove") if "registered_handlers[key.event]" in src(c.func).replace(" ", "")]
+    ok = bool(lp) and len(rm) == 1
+    if ok:
+        from sa.helpers import inloop_guards
+        from sa.cfg import canon_fact
+        v = src(lp[0].ast.target)
+        ok = inloop_guards(rc, rm[0][0].id, lp[0].id) == {canon_fact("%s.key == key.key" % v, True)}
+    chk.ob("KEY-7", "removal by key looks under key.event and removes exactly the registrations whose key is key.key", ok, r.where(), construct=r.ident,
+           text="removal by key lookup")
+
+
 def battery():
     from sa.battery import M
     EP = "mpf/config_players/event_player.py"
@@ -644,6 +693,8 @@ def battery():
         M("twin: guard with ==", ED, "        if self.enabled is False:\n            return", "        if self.enabled == False:\n            return", None),
         M("some start methods' undo is not recorded", MD, "                if result:\n                    self.stop_methods.append(result)", "                if result and item.config_section:\n                    self.stop_methods.append(result)", "DOM-15"),
         M("stop methods run only for the first", MD, "        for item in self.stop_methods:\n            item[0](item[1])", "        for item in self.stop_methods:\n            item[0](item[1])\n            break", "DOM-15"),
+        M("returned handler key carries the raw event string", "mpf/core/events.py", "        event, condition, additional_priority = self.get_event_and_condition_from_string(event)\n        priority += additional_priority\n\n        key = uuid.uuid4()", "        raw_event = event\n        event, condition, additional_priority = self.get_event_and_condition_from_string(event)\n        priority += additional_priority\n\n        key = uuid.uuid4()", "KEY-7", also=[("mpf/core/events.py", "        return EventHandlerKey(key, event)", "        return EventHandlerKey(key, raw_event)")]),
+        M("returned handler key is a fresh uuid", "mpf/core/events.py", "        return EventHandlerKey(key, event)", "        return EventHandlerKey(uuid.uuid4(), event)", "KEY-7"),
     ]
 
 
